@@ -53,6 +53,25 @@ def make(ck, rnd, n):
                     if l is not None:
                         d[:, l.index] = 0
         inw = [[wrec.stim_image(rnd.randint(0, 1), rnd.randint(0, 12), rnd.randint(0, 1)) for _ in range(lanes)] for _ in c.s_nodes]
+        if rnd.random() < 0.12:
+            # a multiplexer (or AO22 built selector) whose SELECT is an internal hazard: two inputs switching in opposite
+            # directions at different times make a pulse on the select while the data inputs are different constants
+            from kyupy import bench
+            g = rnd.choice(['AND', 'NOR', 'XNOR', 'XOR', 'NAND', 'OR'])
+            c = bench.parse('input(a,b,d0,d1) output(z,y) s=%s(a,b) %s z=%s y=%s(t,d0)' % (
+                g, rnd.choice(['t=BUF(s)', 't=NOT(s)', 't=AND(s,s)']), rnd.choice(['MUX21(d0,d1,t)', 'MUX21(d1,d0,t)']), rnd.choice(['XOR', 'AND', 'OR'])))
+            d = gen.rand_delays(rnd, c, vals=(0, 1, 2, 3, 5))
+            wstrip = False
+            names = [n.name for n in c.s_nodes]
+            inw = []
+            for nm in names:
+                if nm in ('a', 'b'):
+                    inw.append([wrec.stim_image(i, rnd.randint(0, 12), 1 - i) for i in [rnd.randint(0, 1) for _ in range(lanes)]])
+                elif nm in ('d0', 'd1'):
+                    inw.append([wrec.stim_image(i, 0, i) for i in [rnd.randint(0, 1) for _ in range(lanes)]])
+                else:
+                    inw.append([wrec.stim_image(0, 0, 0) for _ in range(lanes)])
+            ck.count('mux-with-hazard-select')
         warm = wrec.rand_inputs(rnd, c, lanes, multi=rnd.random() < 0.5, tmax=12) if rnd.random() < 0.5 else None
         # initial and final values do not depend on the time at which the outputs are sampled: c_to_s(time=T) with a finite T
         T = rnd.choice([None, None, 0.5, 3.0, 7.5, 12.0])
